@@ -430,12 +430,14 @@ func ReadKeysAndCert(data []byte) (*KeysAndCert, []byte, error) {
 
 	pubKeySize := keyCert.CryptoSize()
 	sigKeySize := keyCert.SigningPublicKeySize()
-	padding := extractPaddingFromData(data, pubKeySize, sigKeySize)
 
+	// The signing key is constructed first: it rejects signing keys that do not
+	// fit into the key block, for which no padding layout exists.
 	sigKey, err := constructSigningKeyFromCert(keyCert, data, sigKeySize)
 	if err != nil {
 		return nil, remainder, err
 	}
+	padding := extractPaddingFromData(data, pubKeySize, sigKeySize)
 
 	keysAndCert := &KeysAndCert{
 		KeyCertificate:  keyCert,
